@@ -99,7 +99,13 @@ func (s *wScenario) child(a, br, idx uint32) *hd.Key {
 	if ak == nil {
 		return nil
 	}
-	k, err := ak.Path(true, br, idx)
+	// same rule as runner.chainedOracle: the account key is always the one re-read from its row (padded), the branch
+	// key the in-memory result of DeriveNonStandard (matters for hardened steps only)
+	bk, err := ak.Child(br, false)
+	if err != nil {
+		return nil
+	}
+	k, err := bk.Child(idx, true)
 	if err != nil {
 		return nil
 	}
